@@ -556,6 +556,70 @@ var DictBounds []int
 var Tier = "quick"
 
 // C09 generates run number `run` of the C09 check.
+// FloodP is the share of C09 runs that carry a volume fault.
+var FloodP = 0.04
+
+// c09flood chooses the template, length and stride of a flood. Lengths are log-uniform from just above the smallest
+// plausible capacity (128) to what the call's cost allows inside one run.
+func c09flood(r *Rng, g *c09gen) *spec.Flood {
+	fl := &spec.Flood{Stride: 1}
+	if r.Chance(0.25) {
+		fl.Stride = r.Pick([]int{-1, 2, 7, 60, 128})
+	}
+	y := 1000 + r.Intn(1500)
+	if r.Chance(0.5) {
+		y = 1900 + r.Intn(150)
+	}
+	m, d := r.Range(1, 12), r.Range(1, 28)
+	h, mi, sec := r.Intn(24), r.Intn(60), r.Intn(60)
+	switch r.Weighted([]int{20, 22, 16, 14, 12, 10, 6}) {
+	case 0: // year tables
+		fl.Unit = "year"
+		fl.Op = ops.Op{K: "sub", Sub: &ops.Op{K: "lyear", A: []int{y}}, Acc: r.U64() >> 1, N: 3}
+		fl.Count = logUniform(r, 130, 1500)
+	case 1: // one day of each of many years, every accessor of the Lunar (whatever is kept per year behind any of them)
+		fl.Unit = "year"
+		fl.Op = ops.Op{K: "sub", Sub: &ops.Op{K: "solar2lunar", A: []int{y, m, d, h, mi, sec}}, Acc: r.U64() >> 1, N: 0}
+		fl.Count = logUniform(r, 130, 320)
+	case 2: // holiday lookups by day
+		fl.Unit = "day"
+		fl.Op = ops.Op{K: "holiday_ymd", A: []int{1990 + r.Intn(30), m, d}}
+		fl.Count = logUniform(r, 300, 40000)
+		if fl.Stride < 0 || fl.Stride > 7 {
+			fl.Stride = 1
+		}
+	case 3: // consecutive days through the conversion, a few accessors each
+		fl.Unit = "day"
+		if y < 1600 {
+			y += 600
+		}
+		fl.Op = ops.Op{K: "sub", Sub: &ops.Op{K: "solar2lunar", A: []int{y, m, d, h, mi, sec}}, Acc: r.U64() >> 1, N: r.Range(3, 8)}
+		fl.Count = logUniform(r, 300, 5000)
+		if fl.Stride < 0 || fl.Stride > 7 {
+			fl.Stride = 1
+		}
+	case 4: // civil dates
+		fl.Unit = "day"
+		if y < 1600 {
+			y += 600
+		}
+		fl.Op = ops.Op{K: "sub", Sub: &ops.Op{K: "solar", A: []int{y, m, d, h, mi, sec}}, Acc: r.U64() >> 1, N: r.Range(3, 8)}
+		fl.Count = logUniform(r, 300, 20000)
+		if fl.Stride < 0 || fl.Stride > 7 {
+			fl.Stride = 1
+		}
+	case 5: // lunar months of many years
+		fl.Unit = "year"
+		fl.Op = ops.Op{K: "sub", Sub: &ops.Op{K: "lmonth", A: []int{y, m}}, Acc: r.U64() >> 1, N: 4}
+		fl.Count = logUniform(r, 130, 1500)
+	default: // eight characters of one moment in many years
+		fl.Unit = "year"
+		fl.Op = ops.Op{K: "sub", Sub: &ops.Op{K: "eightchar", A: []int{y, m, d, h, mi, sec, 2}}, Acc: r.U64() >> 1, N: r.Range(10, 40)}
+		fl.Count = logUniform(r, 130, 600)
+	}
+	return fl
+}
+
 func C09(seed uint64, run int) *spec.Spec {
 	r := NewRng(seed, 9, run)
 	g := &c09gen{r: r, dictP: 0.08}
@@ -909,6 +973,50 @@ func C09(seed uint64, run int) *spec.Spec {
 			task.Ops = append(task.Ops, spec.Step{U: &u, Fault: "evict"})
 		}
 		s.Tasks = append(s.Tasks, task)
+	}
+	// fault: volume. Drawn from a stream of its own (every run without it stays what it was). One task makes hundreds
+	// to tens of thousands of DISTINCT valid calls of one kind back to back - uncompared load that pushes whatever
+	// bounded cache, ring, pool or table the library keeps per year or per day past its capacity (the guidance's
+	// 'cache too large for the miss path to run') - while the run's ordinary operations, and a few calls taken from
+	// the flood itself, are made before, after and beside it and judged by the fresh-process oracle as always.
+	if r2 := NewRng(seed, 1009, run); !crowd && r2.Chance(FloodP) {
+		fl := c09flood(r2, g)
+		f.Flood = true
+		t := r2.Intn(len(s.Tasks))
+		if s.Tasks[t].Role == "evictor" {
+			t = 0
+		}
+		o := s.Tasks[t].Ops
+		pos := r2.Intn(len(o) + 1)
+		st := spec.Step{Flood: fl, Fault: "flood"}
+		o = append(o[:pos:pos], append([]spec.Step{st}, o[pos:]...)...)
+		s.Tasks[t].Ops = o
+		// witnesses out of the flood itself: its first call, its last and one in between - made again after the flood
+		// by the same task (has the early one been evicted and rebuilt correctly?), sometimes before it, and by the
+		// other tasks while it is under way
+		for _, i := range []int{0, r2.Intn(fl.Count), fl.Count - 1} {
+			u := g.add(spec.FloodOp(fl, i))
+			o := s.Tasks[t].Ops
+			after := pos + 1 + r2.Intn(len(o)-pos)
+			u1 := u
+			o = append(o[:after:after], append([]spec.Step{{U: &u1}}, o[after:]...)...)
+			if r2.Chance(0.4) {
+				before := r2.Intn(pos + 1)
+				u2 := u
+				o = append(o[:before:before], append([]spec.Step{{U: &u2}}, o[before:]...)...)
+				pos++
+			}
+			s.Tasks[t].Ops = o
+			if len(s.Tasks) > 1 && r2.Chance(0.6) {
+				t2 := r2.Intn(len(s.Tasks))
+				if t2 != t {
+					o2 := s.Tasks[t2].Ops
+					p2 := r2.Intn(len(o2) + 1)
+					u3 := u
+					s.Tasks[t2].Ops = append(o2[:p2:p2], append([]spec.Step{{U: &u3}}, o2[p2:]...)...)
+				}
+			}
+		}
 	}
 	// fault: the wall clock moves on between calls (minutes to a day; never across a year, so that the
 	// clock-dependent reverse lookup keeps its fresh-process answer)
